@@ -31,6 +31,8 @@ def T_tuple(ts): return ("tuple", tuple(ts))
 def T_dict(k, v): return ("dict", k, v)
 PS, PL = "PauliString", "label"
 OBJ, BITS, GI = "obj", "bits", "gi"
+COLL = "coll"
+def T_opt(t): return ("option", t)
 MORPH = ("morph",)      # a Morph object = its legs : list (list V)
 
 def coq_type(t):
@@ -41,6 +43,8 @@ def coq_type(t):
     if t == PS: return "pstr"
     if t == PL: return "pl"
     if t == OBJ: return "obj"
+    if t == COLL: return "coll"
+    if isinstance(t, tuple) and t[0] == "option": return "(option %s)" % coq_type(t[1])
     if t == BITS: return "(list bool)"
     if t == GI: return "gi"
     if t == MORPH: return "(list (list V))"
@@ -57,6 +61,8 @@ def default(t, enums):
     if t == PS: return "[]"
     if t == BITS: return "[]"
     if t == OBJ: return "(fresh_bits [])"
+    if t == COLL: return "{| gens := []; cache := None |}"
+    if isinstance(t, tuple) and t[0] == "option": return "None"
     if t == GI: return "(0, 0)"
     if t == MORPH: return "[]"
     if t[0] == "enum": return "%s_%s" % (t[1], enums[t[1]][0])
@@ -772,7 +778,7 @@ class PSFn(ModFn):
 
     def raise_text(self, o):
         if getattr(self, "mutating", False):
-            if o == "Raised EIndex": return "Ret (FRaised EIndex, v_self)"
+            if o.startswith("Raised "): return "Ret (FRaised %s, v_self)" % o[len("Raised "):]
             bad(self.node, "guard %s inside a mutating method" % o)
         return o
 
@@ -991,12 +997,281 @@ class PSTranslator:
         return "\n".join(out)
 
 
+class CollFn(PSFn):
+    """a method of PauliStringCollection (common/pauli_string_collection.py) on the state (generators, classification) = Model/Collection.coll.
+    Contracts (trusted; the C10 history replay runs them against the real objects): Python list semantics — `x in l` / `x not in l` = memS,
+    l.append, l.insert(i, x) = insert_at (norm_insert (len l) i), del l[k] = delete_at with IndexError outside (norm_index), l.remove(x) = remove1
+    (ValueError when absent), l[k] = v with Python's index rule; len(max(l, key=len)) = maxlen l; PauliString contracts — len, ==,
+    p.copy() = p, p.expand(n) = p padded with identities to n (ValueError when p is longer than n), p @ q = letterwise product (ValueError on
+    unequal lengths; proved of the source in PSRefine.gen_matmul); self.classify() = a classification computed from the strings held now."""
+    def __init__(self, tr, node):
+        Fn.__init__(self, tr, "PauliStringCollection", node)
+        self.coq = "py_C_" + node.name.strip("_")
+        self.params = {"self": COLL}
+        for a in node.args.args[1:]:
+            txt = ast.unparse(a.annotation) if a.annotation is not None else None
+            if txt == "PauliString": self.params[a.arg] = PS
+            elif txt == "int": self.params[a.arg] = Z
+            else: bad(a, "parameter annotation %r" % txt)
+        self.self_t = None
+        def stores_self(t):
+            return isinstance(t, ast.Attribute) and isinstance(t.value, ast.Name) and t.value.id == "self" and isinstance(t.ctx, (ast.Store, ast.Del))
+        self.mutating = any(stores_self(t) or (isinstance(t, ast.Subscript) and isinstance(t.ctx, (ast.Store, ast.Del)) and isinstance(t.value, ast.Attribute)
+                                               and isinstance(t.value.value, ast.Name) and t.value.value.id == "self") for t in ast.walk(node))
+        # a method that calls a mutating method, or list-mutating methods of self.generators, mutates too
+        for c in ast.walk(node):
+            if isinstance(c, ast.Call) and isinstance(c.func, ast.Attribute):
+                if isinstance(c.func.value, ast.Name) and c.func.value.id == "self" and c.func.attr in tr.fns and tr.fns[c.func.attr].mutating:
+                    self.mutating = True
+                if isinstance(c.func.value, ast.Attribute) and ast.unparse(c.func.value) == "self.generators" and c.func.attr in ("append", "insert", "remove"):
+                    self.mutating = True
+        if self.mutating:
+            self.vars["self"] = COLL
+
+    def field(self, e):
+        return None
+
+    def expr_extra(self, e, env):
+        if isinstance(e, ast.Attribute) and isinstance(e.value, ast.Name) and e.value.id == "self":
+            if e.attr == "generators": return "(gens v_self)", T_list(PS), []
+            if e.attr == "classification": return "(cache v_self)", T_opt(T_list(PS)), []
+            bad(e, "field")
+        if isinstance(e, ast.Constant) and e.value is None:
+            return "None", T_opt(T_list(PS)), []
+        if isinstance(e, ast.Call) and not e.keywords:
+            f = e.func
+            if ast.unparse(e) == "len(max(self.generators, key=len))":
+                return "(Z.of_nat (maxlen (gens v_self)))", Z, []
+        if isinstance(e, ast.Call):
+            f = e.func
+            if ast.unparse(e) == "len(max(self.generators, key=len))":
+                return "(Z.of_nat (maxlen (gens v_self)))", Z, []
+            if e.keywords: bad(e, "keyword arguments")
+            if isinstance(f, ast.Name) and f.id == "len" and len(e.args) == 1:
+                if ast.unparse(e.args[0]) == "self":
+                    ln = self.tr.fns.get("__len__")
+                    if ln is None or not ln.pure: bad(e, "len(self) needs a translated pure __len__")
+                    return "(%s v_self)" % ln.coq, Z, []
+                c, t, g = self.expr(e.args[0], env)
+                if t == PS or (isinstance(t, tuple) and t[0] == "list"): return "(Z.of_nat (length %s))" % c, Z, g
+                bad(e, "len")
+            if isinstance(f, ast.Attribute) and f.attr == "expand" and len(e.args) == 1 and not (isinstance(f.value, ast.Name) and f.value.id == "self"):
+                c, t, g = self.expr(f.value, env); n, tn, gn = self.expr(e.args[0], env)
+                if t != PS or tn != Z: bad(e, "expand of a non-PauliString")
+                return "(pad (Z.to_nat %s) %s)" % (n, c), PS, g + gn + [("(Z.of_nat (length %s) <=? %s)" % (c, n), "Raised (EUser \"ValueError\"%string)")]
+            if isinstance(f, ast.Attribute) and f.attr == "copy" and not e.args:
+                c, t, g = self.expr(f.value, env)
+                if t != PS: bad(e, "copy of a non-PauliString")
+                return c, PS, g
+            if isinstance(f, ast.Attribute) and f.attr == "classify" and isinstance(f.value, ast.Name) and f.value.id == "self" and not e.args:
+                return "(Some (gens v_self))", T_opt(T_list(PS)), []
+            m = self.method_call(e)
+            if m is not None:
+                args, fn = m
+                if fn.pure: return "(%s %s)" % (fn.coq, args), fn.ret, []
+                bad(e, "call of %s inside an expression" % fn.name)
+            return None
+        if isinstance(e, ast.BinOp) and isinstance(e.op, ast.MatMult):
+            a, ta, ga = self.expr(e.left, env); b, tb, gb = self.expr(e.right, env)
+            if ta != PS or tb != PS: bad(e, "@ of non-PauliStrings")
+            return "(smul %s %s)" % (a, b), PS, ga + gb + [("(Nat.eqb (length %s) (length %s))" % (a, b), "Raised (EUser \"ValueError\"%string)")]
+        if isinstance(e, ast.UnaryOp) and isinstance(e.op, ast.USub) and isinstance(e.operand, ast.Constant) and isinstance(e.operand.value, int):
+            return "(-%d)" % e.operand.value, Z, []
+        if isinstance(e, ast.Compare) and len(e.ops) == 1:
+            op = e.ops[0]
+            if isinstance(op, (ast.Is, ast.IsNot)) and isinstance(e.comparators[0], ast.Constant) and e.comparators[0].value is None:
+                a, ta, ga = self.expr(e.left, env)
+                if not (isinstance(ta, tuple) and ta[0] == "option"): bad(e, "is None of a non-optional")
+                c = "(match %s with None => true | Some _ => false end)" % a
+                return (c if isinstance(op, ast.Is) else "(negb %s)" % c), B, ga
+            if isinstance(op, (ast.In, ast.NotIn)):
+                a, ta, ga = self.expr(e.left, env); b, tb, gb = self.expr(e.comparators[0], env)
+                if ta != PS or tb != T_list(PS): bad(e, "membership test")
+                c = "(memS %s %s)" % (a, b)
+                return (c if isinstance(op, ast.In) else "(negb %s)" % c), B, ga + gb
+            if isinstance(op, (ast.Eq, ast.NotEq)):
+                a, ta, ga = self.expr(e.left, env)
+                if ta == PS:
+                    b, tb, gb = self.expr(e.comparators[0], env)
+                    if tb != PS: bad(e, "== of a PauliString with something else")
+                    c = "(pstr_eqb %s %s)" % (a, b)
+                    return (c if isinstance(op, ast.Eq) else "(negb %s)" % c), B, ga + gb
+            return None
+        return None
+
+    def expr(self, e, env):
+        if isinstance(e, (ast.Compare, ast.UnaryOp, ast.Attribute, ast.Constant, ast.BinOp)):
+            x = self.expr_extra(e, env)
+            if x is not None:
+                return x
+        return Fn.expr(self, e, env)
+
+    def method_call(self, e):
+        if isinstance(e, ast.Call) and isinstance(e.func, ast.Attribute) and isinstance(e.func.value, ast.Name) and e.func.value.id == "self" \
+           and not e.keywords and e.func.attr in self.tr.fns:
+            fn = self.tr.fns[e.func.attr]
+            scope = set(self.vars) | set(self.params)
+            if len(e.args) != len(fn.params) - 1: bad(e, "method call arity")
+            cs, gs = ["v_self"], []
+            for a, (pn, pt) in zip(e.args, list(fn.params.items())[1:]):
+                c, t, g = self.expr(a, scope)
+                if t != pt: bad(a, "argument type %r, expected %r" % (t, pt))
+                cs.append(c); gs += g
+            self._call_guards = gs
+            return " ".join(cs), fn
+        return None
+
+    def module_call(self, e):
+        m = self.method_call(e)
+        return None if m is None or m[1].pure else m[1]
+
+    def mcall(self, e, bind, rest_text):
+        """call of a (possibly mutating) method: bind = None (value dropped) or a Coq pattern for the value"""
+        args, fn = self.method_call(e)
+        gs = self._call_guards
+        if fn.mutating:
+            if not self.mutating: bad(e, "mutating call from a method not marked mutating")
+            if bind is None:
+                body = "(callM (%s %s) (fun _ v_self => %s))" % (fn.coq, args, rest_text)
+            else:
+                body = "(callMv (%s %s) (fun %s v_self => %s))" % (fn.coq, args, bind, rest_text)
+        else:
+            if fn.pure:
+                body = "(let %s := (%s %s) in %s)" % (bind or "_", fn.coq, args, rest_text)
+            elif self.mutating:
+                body = "(callMv (%s %s, v_self) (fun %s v_self => %s))" % (fn.coq, args, bind or "_", rest_text)
+            else:
+                body = "(bindr (%s %s) (fun %s => %s))" % (fn.coq, args, bind or "_", rest_text)
+        return self.guard(gs, body)
+
+    def set_field(self, f, c):
+        return "(let v_self := set_%s v_self %s in " % (f, c)
+
+    def stmt_extra(self, s, rest, env, k):
+        gens_attr = lambda n: isinstance(n, ast.Attribute) and ast.unparse(n) == "self.generators"
+        # self.<field> = ...
+        if isinstance(s, ast.Assign) and len(s.targets) == 1 and isinstance(s.targets[0], ast.Attribute) and ast.unparse(s.targets[0]) in ("self.generators", "self.classification"):
+            f = "gens" if s.targets[0].attr == "generators" else "cache"
+            c, t, g = self.expr(s.value, env)
+            want = T_list(PS) if f == "gens" else T_opt(T_list(PS))
+            if t != want: bad(s, "field type")
+            return self.guard(g, self.set_field(f, c) + self.block(rest, env, k) + ")")
+        # self.generators[i] = value   (value may be a call that mutates self: evaluated first)
+        if isinstance(s, ast.Assign) and len(s.targets) == 1 and isinstance(s.targets[0], ast.Subscript) and gens_attr(s.targets[0].value):
+            ic, it_, ig = self.expr(s.targets[0].slice, env)
+            if it_ != Z or ig: bad(s, "index")
+            store = lambda v: self.guard([("(idx_ok (gens v_self) %s)" % ic, "Raised EIndex")],
+                                         self.set_field("gens", "(list_set (gens v_self) %s %s)" % (ic, v)) + self.block(rest, env, k) + ")")
+            if self.method_call(s.value) is not None:
+                return self.mcall(s.value, "rhs_", store("rhs_"))
+            c, t, g = self.expr(s.value, env)
+            if t != PS: bad(s, "stored value")
+            return self.guard(g, store(c))
+        # x = self.m(...)
+        if isinstance(s, ast.Assign) and len(s.targets) == 1 and isinstance(s.targets[0], ast.Name) and self.method_call(s.value) is not None:
+            x = s.targets[0].id
+            fn = self.method_call(s.value)[1]
+            self.declare(x, fn.ret, s)
+            return self.mcall(s.value, "v_" + x, self.block(rest, env | {x}, k))
+        # self.m(...) as a statement; self.generators.append/insert/remove
+        if isinstance(s, ast.Expr) and isinstance(s.value, ast.Call):
+            c = s.value
+            if self.method_call(c) is not None:
+                return self.mcall(c, None, self.block(rest, env, k))
+            if isinstance(c.func, ast.Attribute) and gens_attr(c.func.value) and not c.keywords:
+                if c.func.attr == "append" and len(c.args) == 1:
+                    v, t, g = self.expr(c.args[0], env)
+                    if t != PS: bad(s, "append of a non-PauliString")
+                    return self.guard(g, self.set_field("gens", "(gens v_self ++ [%s])" % v) + self.block(rest, env, k) + ")")
+                if c.func.attr == "insert" and len(c.args) == 2:
+                    i, ti, gi_ = self.expr(c.args[0], env); v, t, g = self.expr(c.args[1], env)
+                    if ti != Z or t != PS: bad(s, "insert arguments")
+                    return self.guard(gi_ + g, self.set_field("gens", "(insert_at (norm_insert (length (gens v_self)) %s) %s (gens v_self))" % (i, v)) + self.block(rest, env, k) + ")")
+                if c.func.attr == "remove" and len(c.args) == 1:
+                    v, t, g = self.expr(c.args[0], env)
+                    if t != PS: bad(s, "remove of a non-PauliString")
+                    return self.guard(g + [("(memS %s (gens v_self))" % v, "Raised (EUser \"ValueError\"%string)")],
+                                      self.set_field("gens", "(remove1 %s (gens v_self))" % v) + self.block(rest, env, k) + ")")
+        # del self.generators[key]
+        if isinstance(s, ast.Delete) and len(s.targets) == 1 and isinstance(s.targets[0], ast.Subscript) and gens_attr(s.targets[0].value):
+            ic, it_, ig = self.expr(s.targets[0].slice, env)
+            if it_ != Z or ig: bad(s, "index")
+            return ("(match norm_index (length (gens v_self)) %s with Some k_ => %s%s) | None => Ret (FRaised EIndex, v_self) end)"
+                    % (ic, self.set_field("gens", "(delete_at k_ (gens v_self))"), self.block(rest, env, k)))
+        if isinstance(s, ast.Return) and self.mutating:
+            if s.value is None or (isinstance(s.value, ast.Constant) and s.value.value is None):
+                return "Ret (FNone, v_self)"
+            c, t, g = self.expr(s.value, env)
+            self.set_ret(t, s)
+            return self.guard(g, "Ret (FRet %s, v_self)" % c)
+        return ModFn.stmt_extra(self, s, rest, env, k)
+
+    def block(self, stmts, env, k):
+        if stmts:
+            s0 = stmts[0]
+            special = (isinstance(s0, ast.Return) and self.mutating) or isinstance(s0, ast.Delete) \
+                or (isinstance(s0, ast.Assign) and len(s0.targets) == 1 and (isinstance(s0.targets[0], (ast.Subscript, ast.Attribute)) or self.method_call(s0.value) is not None)) \
+                or (isinstance(s0, ast.Expr) and isinstance(s0.value, ast.Call) and isinstance(s0.value.func, ast.Attribute)
+                    and (self.method_call(s0.value) is not None or ast.unparse(s0.value.func.value) == "self.generators"))
+            if special:
+                x = self.stmt_extra(s0, stmts[1:], env, k)
+                if x is not None:
+                    return x
+        return ModFn.block(self, stmts, env, k)
+
+    def emit(self):
+        if not self.mutating:
+            return ModFn.emit(self)
+        self.prepare()
+        body = self.node.body
+        ps = " ".join("(v_%s : %s)" % (n, coq_type(t)) for n, t in self.params.items())
+        env0 = {"self"}
+        self.block(body, env0, None)
+        term = self.block(body, env0, None)
+        rt = self.ret if self.ret is not None else COLL
+        inits = "".join("let v_%s : %s := %s in " % (v, coq_type(t), default(t, self.tr.enums)) for v, t in self.vars.items() if v not in self.params)
+        return ("(* %s (mutates self), lines %d-%d; state = (%s); result = (returned value, self afterwards) *)\nDefinition %s %s : fres %s * coll :=\n  %s@finishM %s _ _ (fun %s => v_self) v_self (%s)." % (
+            self.name, self.node.lineno, self.node.end_lineno, ", ".join(self.vars), self.coq, ps, coq_type(rt), inits, self.state_type(), pat(self.state()), term))
+
+
+class CollTranslator:
+    WANT = ["__len__", "find", "__delitem__", "expand", "_processing", "append", "insert", "remove", "replace", "contract", "get_class"]
+    def __init__(self, repo):
+        self.path = os.path.join(repo, "src", "paulie", "common", "pauli_string_collection.py")
+        self.tree = ast.parse(open(self.path, newline=None, encoding="utf-8-sig").read())
+        self.enums, self.exns, self.fns = {}, [], {}
+        cls = [n for n in self.tree.body if isinstance(n, ast.ClassDef) and n.name == "PauliStringCollection"]
+        if len(cls) != 1: raise Unsupported("class PauliStringCollection not found")
+        self.defs = {f.name: f for f in cls[0].body if isinstance(f, ast.FunctionDef)}
+        # PauliString.expand / copy: the contracts above are their source text, pinned
+        ps = ast.parse(open(os.path.join(repo, "src", "paulie", "common", "pauli_string_bitarray.py"), newline=None, encoding="utf-8-sig").read())
+        pdefs = {f.name: f for c in ps.body if isinstance(c, ast.ClassDef) and c.name == "PauliString" for f in c.body if isinstance(f, ast.FunctionDef)}
+        def body_of(n):
+            return [ast.unparse(x) for x in n.body if not (isinstance(x, ast.Expr) and isinstance(x.value, ast.Constant))]
+        if body_of(pdefs["expand"]) != ["return self + PauliString(n=n - len(self))"]: raise Unsupported("PauliString.expand changed")
+        if body_of(pdefs["copy"]) != ["return PauliString(bits=self.bits)"]: raise Unsupported("PauliString.copy changed")
+        if body_of(pdefs["__add__"]) != ["other = self._ensure_pauli_string(other)", "return self.tensor(other)"]: raise Unsupported("PauliString.__add__ changed")
+
+    def run(self):
+        out = ["(* GENERATED by tools/py2coq.py from src/paulie/common/pauli_string_collection.py — do not edit *)",
+               "From PauLieRefine Require Import PySem.", "From PauLie Require Import Pauli Collection.", "Open Scope Z_scope.", "",
+               "Definition set_gens (s : coll) (l : list pstr) : coll := {| gens := l; cache := cache s |}.",
+               "Definition set_cache (s : coll) (c : option (list pstr)) : coll := {| gens := gens s; cache := c |}.", ""]
+        for name in self.WANT:
+            node = self.defs.get(name)
+            if node is None: raise Unsupported("PauliStringCollection.%s not found in the source" % name)
+            f = CollFn(self, node)
+            self.fns[name] = f      # registered before emit so that recursion is rejected by arity/type checks, and mutating is known
+            out.append(f.emit()); out.append("")
+        return "\n".join(out)
+
+
 def main():
     repo, dst = sys.argv[1], sys.argv[2]
     which = sys.argv[3] if len(sys.argv) > 3 else "classification"
-    path = os.path.join(repo, "src", "paulie", {"classification": "classifier/classification.py", "compiler": "application/pauli_compiler.py", "pstring": "common/pauli_string_bitarray.py"}[which])
+    path = os.path.join(repo, "src", "paulie", {"classification": "classifier/classification.py", "compiler": "application/pauli_compiler.py", "pstring": "common/pauli_string_bitarray.py", "collection": "common/pauli_string_collection.py"}[which])
     try:
-        text = Translator(path).run() if which == "classification" else (CompTranslator(repo).run() if which == "compiler" else PSTranslator(repo).run())
+        text = Translator(path).run() if which == "classification" else (CompTranslator(repo).run() if which == "compiler" else (PSTranslator(repo).run() if which == "pstring" else CollTranslator(repo).run()))
     except Unsupported as e:
         print("py2coq: cannot translate %s: %s" % (path, e)); sys.exit(3)
     with open(dst, "w") as f:
